@@ -50,6 +50,11 @@ type incOpts struct {
 }
 
 func nalLen(t *rapid.T) int {
+	// a frame whose TS packets exceed 64 KiB (a 1080p key frame): write paths that treat large blocks differently
+	// (seed c10-g: writes >= 64 KiB overtaking buffered PAT/PMT); mid-range value because rapid favours the bounds
+	if rapid.IntRange(0, 29).Draw(t, "nalHuge") == 17 {
+		return rapid.IntRange(60000, 200000).Draw(t, "nalLenHuge")
+	}
 	if rapid.IntRange(0, 11).Draw(t, "nalBig") == 0 {
 		return rapid.IntRange(200, 2500).Draw(t, "nalLenBig")
 	}
@@ -504,6 +509,15 @@ func classify(c Case) (bool, []string) {
 	}
 	if c.FragNum+c.DelThr+1 > 11 {
 		labels = append(labels, "ring-larger-than-documented-maximum")
+	}
+	for _, in := range c.Incs {
+		for _, it := range in.Items {
+			for _, n := range it.Nals {
+				if n.Len >= 60000 {
+					labels = append(labels, "frame-above-64KiB-of-ts")
+				}
+			}
+		}
 	}
 	switch {
 	case c.FragMs < 100:
